@@ -62,3 +62,16 @@ def histHandler : Handler := fun lhs rhs =>
   | _ => .error "arity"
 
 end UVerif.Driver
+
+namespace UVerif.Driver
+
+/-- `ub <site id> => ok | abort:<how>` (C20): an operation executed in a forked child of a UBSan build. The spec is that
+    every operation is defined behaviour (`ok`); the class id is the site id, so a listed known finding is matched exactly
+    and a new abort (or a control that aborts) is reported. -/
+def ubHandler : Handler := fun lhs rhs =>
+  match lhs, rhs with
+  | [site], [r] => .ok { model := r, specOk := r == "ok", reason := "operation aborts under UBSan / raises a signal",
+                         cls := "ub." ++ site, tag := "ub-probe" }
+  | _, _ => .error "arity"
+
+end UVerif.Driver
